@@ -2,7 +2,7 @@
 //! configuration to learn the accepted-step grid and the dense solution; pass 2 places requested
 //! times / event roots relative to that grid.
 
-use crate::problems::{base, reflect, warp, Base, Prob, Warp};
+use crate::problems::{base, reflect, shift, warp, Base, Prob, Warp};
 use crate::run::{run, Cfg, Run};
 use ivp::prelude::*;
 
@@ -62,9 +62,11 @@ pub fn scenes(backward: bool) -> Vec<Scene> {
     let mut v = vec![];
     // the third scene depends explicitly on the independent variable (a time-warped oscillator): the
     // abscissae handed to the right-hand side matter, also those of dense-output-only stages
-    for (b, span, w) in [(Base::Harmonic(1.5), 2.5, Warp::Id), (Base::Logistic(2.0), 2.0, Warp::Id), (Base::Harmonic(1.2), 2.2, Warp::Quad)] {
-        let p0 = warp(&base(b), w);
-        let (p, x0, xend) = if backward { (reflect(&p0), 0.0, -span) } else { (p0, 0.0, span) };
+    // the fourth scene starts far from the origin (x0 = ±1000: abscissa rounding 1e-13, every absolute
+    // time constant of the library is small against |x| but large against ulp(x))
+    for (b, span, w, origin) in [(Base::Harmonic(1.5), 2.5, Warp::Id, 0.0), (Base::Logistic(2.0), 2.0, Warp::Id, 0.0), (Base::Harmonic(1.2), 2.2, Warp::Quad, 0.0), (Base::Harmonic(1.5), 2.5, Warp::Sin, 1000.0)] {
+        let p0 = shift(&warp(&base(b), w), origin);
+        let (p, x0, xend) = if backward { (reflect(&p0), -origin, -origin - span) } else { (p0, origin, origin + span) };
         v.push(Scene { name: p.name.clone(), prob: p, x0, xend });
     }
     v
